@@ -40,6 +40,8 @@ class ExprMixin:
     def coerce(self, v, ty):
         if v.ty == ty:
             return v
+        if isinstance(ty, T.Multi) and isinstance(v.ty, T.Multi) and len(ty.ts) == len(v.ty.ts):
+            return T.sv_multi([self.coerce(x, t) for x, t in zip(v.items, ty.ts)])
         if isinstance(ty, T.Opt):
             if v.ty == T.NONE:
                 return T.sv_opt(ty.t, z3.BoolVal(True), T.fresh_value(ty.t, "nonepayload"))
@@ -324,6 +326,17 @@ class ExprMixin:
             for k, v in zip(e.keys, e.values):
                 m = TH.mset(m, self.field_const(k.value), self.to_val(self.ev(v, p)))
             return T.scalar(T.META, m)
+        if all(k is not None for k in e.keys):
+            # {k1: v1, ...} with computed scalar keys of one type and values of one type: later entries overwrite earlier ones
+            ks = [self.ev(k, p) for k in e.keys]
+            vs = [self.ev(v, p) for v in e.values]
+            kt, vt = ks[0].ty, vs[0].ty
+            if kt.scalar and vt.scalar and kt.sort() is not None and vt.sort() is not None and all(k.ty == kt for k in ks) and all(v.ty == vt for v in vs):
+                dom = z3.K(kt.sort(), z3.BoolVal(False))
+                val = fresh("dictlit", z3.ArraySort(kt.sort(), vt.sort()))
+                for k, v in zip(ks, vs):
+                    dom, val = z3.Store(dom, k.t, True), z3.Store(val, k.t, v.t)
+                return T.sv_map(kt, vt, dom, val)
         raise Unsupported("dict literal with computed keys")
 
     def field_const(self, name):
@@ -366,6 +379,8 @@ class ExprMixin:
         return self.tuple_of(vals, p)
 
     def tuple_of(self, vals, p):
+        if any(not v.ty.scalar or v.ty.sort() is None for v in vals) and len(vals) >= 2 and all(v.ty not in (T.EMPTYLIST, T.EMPTYDICT, T.EMPTYSET) for v in vals):
+            return T.sv_multi(vals)          # a tuple with an object / dict / list component
         int_pairs = self.cur is not None and "int_pairs" in self.cur.options and not self.spec_mode   # (node, depth) records, not 2-node hyperedges
         if len(vals) == 2 and (int_pairs or not (vals[0].ty == T.INT and vals[1].ty == T.INT)):
             a, b = vals
@@ -567,11 +582,26 @@ class ExprMixin:
         base = self.ev(e.value, p)
         if isinstance(e.slice, ast.Slice):
             raise Unsupported("slice")
+        if isinstance(base.ty, T.Obj) and base.ty.cls == "NpArray2":
+            return T.sv_real(base.fields["_m"].val[self.np2_index(base, e.slice, p, f"line {getattr(e, 'lineno', '?')}")])
         key = self.ev(e.slice, p)
         r = self.subscript(base, key, p, f"line {getattr(e, 'lineno', '?')}")
         if isinstance(base.ty, T.ObjMap) and isinstance(e.value, ast.Name) and not self.spec_mode:
             r.ref = (e.value.id, self.coerce(key, base.ty.k).t)      # d[k] is a reference into d: mutating calls on it update d
         return r
+
+    def np2_index(self, arr, sl, p, note):
+        """a[i, j] on a 2-D numpy array (assumed library contract): IndexError outside [-n, n) per axis, negative indices count from the end."""
+        if not (isinstance(sl, ast.Tuple) and len(sl.elts) == 2):
+            raise Unsupported("2-D array subscript that is not a[i, j]")
+        pt = T.Pair(T.INT, T.INT)
+        out = []
+        for ex, dim in zip(sl.elts, (arr.fields["_r"].t, arr.fields["_c"].t)):
+            i = self.coerce(self.ev(ex, p), T.INT).t
+            if not self.spec_mode:
+                self._raise_if(p, z3.Or(i >= dim, i < -dim), "IndexError", note)
+            out.append(z3.If(i >= 0, i, i + dim))
+        return pt.mk(out[0], out[1])
 
     def subscript(self, base, key, p, note):
         if isinstance(base.ty, T.ObjMap):
@@ -595,6 +625,10 @@ class ExprMixin:
             self._raise_if(p, z3.Or(j >= base.len, j < -base.len), "IndexError", note)
             jj = z3.If(j >= 0, j, j + base.len) if not z3.is_int_value(j) or j.as_long() < 0 else j
             return T.scalar(base.ty.e, base.at[jj])
+        if isinstance(base.ty, T.Multi):
+            if key.ty == T.INT and z3.is_int_value(key.t) and 0 <= key.t.as_long() < len(base.items):
+                return base.items[key.t.as_long()]
+            raise Unsupported("tuple subscript with a non-constant index")
         if isinstance(base.ty, T.Pair):
             if z3.is_int_value(key.t):
                 i = key.t.as_long()
